@@ -56,6 +56,9 @@ RR_SCRIPTS = {
     'deep-rr-112': (dict(rock_ridge='1.12'), [('dir', p, p.rsplit('/', 1)[1].lower() + '-' + 'l' * 40 * (i % 3), None) for i, p in enumerate(DEEP)] +
                     [('dir', DEEP[-1] + '/D9', 'd9', None), ('file', DEEP[-1] + '/D9/X.;1', 'x' * 200, None, 3), ('file', DEEP[-1] + '/Y.;1', 'y', None, 4),
                      ('dir', '/D1/D2/D3/D4/D5/D6/D7/E8', 'e8', None), ('file', '/D1/D2/D3/D4/D5/D6/D7/E8/Z.;1', 'z', None, 5)]),
+    # symbolic link targets with doubled, leading and trailing slashes (components without a name) and dots
+    'rr-symlink-shapes': (dict(rock_ridge='1.09'), [('dir', '/D', 'd', None)] + [('symlink', '/S%d.;1' % i, 's%d' % i, t) for i, t in enumerate(
+        ['a/', 'a//b', './', '../', '///', '/a//', '.', '..', '/', 'a/./b', '//a', '/..', 'x' * 255 + '//' + 'y'])]),
     # the image is written and OPENED again in the middle of the history; the entries added afterwards need continuation areas (K58)
     'rr-edit-after-reopen': (dict(rock_ridge='1.09'), [('file', '/A.;1', 'a', None, 5), ('dir', '/D', 'd', None), ('reopen',), ('file', '/B.;1', 'b' * 200, None, 2049),
                                                        ('symlink', '/S.;1', 'sym', 'c' * 255), ('dir', '/D/E', 'e' * 120, None), ('reopen',), ('rm_file', '/B.;1', None),
@@ -962,6 +965,10 @@ UDF_SCRIPTS = {
                                                ('file', '/D2/B.;1', '/\u65e5\u672c/abc', 4), ('dir', '/D2/D3', '/\u65e5\u672c/\u00fcber'), ('file', '/D2/D3/C.;1', '/\u65e5\u672c/\u00fcber/\u4e2d', 5)]),
     'udf-symlink': (dict(udf='2.60', rock_ridge='1.09'), [('file', '/A.;1', '/a', 5), ('dir', '/D', '/d'), ('symlink', '/S.;1', '/s', 'd/../a'),
                                                           ('symlink', '/T.;1', '/t', '/abs/./x')]),
+    # target shapes: doubled and trailing slashes, dots, the root alone (K61: empty components used to be written as root components)
+    'udf-symlink-shapes': (dict(udf='2.60', rock_ridge='1.09'), [('dir', '/D', '/d')] +
+                           [('symlink', '/S%d.;1' % i, '/s%d' % i, t) for i, t in enumerate(
+                               ['a/', 'a//b', './', '../', '///', '/a//', '.', '..', '/', 'a/./b', '//a', 'd/../' + 'n' * 254, '\u00e9/\u4e2d' + 'w' * 126])]),
 }
 
 
@@ -1023,7 +1030,7 @@ def random_udf_script(seed, nops=24, rr=False, reopen_every=0):
             d = rnd.choice(parents)
             ip = '%s/S%d.;1' % (d, k)
             up = dirs[d] + '/' + uname
-            ops.append(('symlink', ip, up, rnd.choice(['a', '../x', '/abs/./y', 'd/' + 'z' * 100])))
+            ops.append(('symlink', ip, up, rnd.choice(['a', '../x', '/abs/./y', 'd/' + 'z' * 100, 'a/', 'b//c', './', '/'])))
             links.append(ip)
         elif r < 0.97:
             # a file that exists in the UDF tree only
@@ -1142,6 +1149,16 @@ def udf_model(script):
     return m, content
 
 
+def udf_target_form(t):
+    """the form in which a UDF symbolic link can hold a POSIX target: path components cannot be empty, so doubled and trailing
+    slashes (which name nothing) are not recorded; a leading slash is (the root component)"""
+    comps = t.split('/')
+    keep = [x for x in comps[1:] if x != '']
+    if comps[0] == '':
+        return '/' + '/'.join(keep)
+    return '/'.join([comps[0]] + keep)
+
+
 def udf_clauses(img, model, content_m, contents, a):
     """the clauses an independent UDF reader decides for one image: (clauses, decoded image or None)"""
     try:
@@ -1162,7 +1179,7 @@ def udf_clauses(img, model, content_m, contents, a):
             ok.append(f['length'] == content_m[v[1]])
             ok.append(Eq(V.mk_bytes(f['data']), contents[v[1]]))
         elif v[0] == 'symlink':
-            ok.append(f['target'] == v[1])
+            ok.append(f['target'] == udf_target_form(v[1]))
     cl['every-file-reads-back-byte-for-byte-and-symlink-targets-match'] = And(*ok) if ok else True
     for p, f in u.files.items():
         if f['kind'] == 'file':
